@@ -102,6 +102,19 @@ func runClock(c *runCtx) {
 		}
 		time.Sleep(250 * time.Millisecond)
 	}
+	if c.prop == "C04" {
+		// only the clock times a promise out: a completion request naming the timed-out state before the deadline is refused
+		id := "clock.notyet"
+		if rp := srv.JSON("POST", "/promises", nil, map[string]any{"id": id, "timeout": time.Now().UnixMilli() + 3600_000}); rp.Err == nil && rp.Status == 201 {
+			rp2 := srv.JSON("PATCH", "/promises/"+id, nil, map[string]any{"state": "REJECTED_TIMEDOUT", "value": map[string]any{"data": []byte("x")}})
+			rd := srv.JSON("GET", "/promises/"+id, nil, nil)
+			var v promiseView
+			c.rep.Hit("clock.timedout-state-by-request-judged")
+			if rd.Err == nil && rd.Status == 200 && json.Unmarshal(rd.Body, &v) == nil && v.State != "PENDING" && v.State != "" {
+				c.violate("clock:timed-out-before-deadline-by-request", fmt.Sprintf("PATCH state=REJECTED_TIMEDOUT (answered %d) left promise %s in state %s an hour before its deadline", rp2.Status, id, v.State), nil)
+			}
+		}
+	}
 	c.rep.Evaluations++
 	c.rep.Nontriv("clock")
 	if len(c.rep.Samples) < 2 {
